@@ -270,8 +270,75 @@ pub fn replay(case: &serde_json::Value) -> i32 {
     1
 }
 
+/// Interactive shell: a child environment (command substitution, subshell, pipeline element) is
+/// killed by SIGINT at every one of its system calls. The interrupt abandons the command line,
+/// but the parent's descriptor table must be what it was: returns the number of executions.
+fn interrupted_children(ctx: &Ctx) -> u64 {
+    use crate::vsh::Inject;
+    let text = "fds before\nx=$(p in1; s 0; s 0; s 0); p same\nfds after1\n(p in2; s 0; s 0)\nfds after2\np in3 | s 0 | cat\nfds after3\ny=$(p in4 | cat); : $(s 0; s 0)\nfds after4\np end\n";
+    let mk = || {
+        let mut s = Setup::script("");
+        s.argv = vec!["yash".into(), "-i".into(), "-s".into()];
+        s.stdin = Some(text.as_bytes().to_vec());
+        s.cwd = Some("/".into());
+        s
+    };
+    let mut runs = 0u64;
+    let tables = |r: &Run| -> Vec<(String, String)> {
+        r.trace
+            .iter()
+            .filter(|e| e.pid == 2)
+            .filter_map(|e| e.text.strip_prefix("fds ").and_then(|t| t.split_once(' ')).map(|(tag, t)| (tag.to_string(), strip_offsets(t))))
+            .collect()
+    };
+    for child in 3..=12 {
+        let base = run_once(&mk(), &RunOpts { inject: Some(Inject { at: vec![], pid: child }), ..Default::default() });
+        runs += 1;
+        if base.target_taps == 0 {
+            continue; // no such process in this script
+        }
+        let results: Vec<(usize, Option<String>)> = (0..base.target_taps)
+            .into_par_iter()
+            .map(|k| {
+                let r = run_once(&mk(), &RunOpts { inject: Some(Inject { at: vec![(k, 2)], pid: child }), ..Default::default() });
+                if let Some(p) = &r.panic {
+                    return (k, Some(format!("panic: {p}")));
+                }
+                if !matches!(r.end, End::Exited(_)) {
+                    return (k, Some(format!("interactive shell ended {:?}", r.end)));
+                }
+                let t = tables(&r);
+                let Some(before) = t.iter().find(|(tag, _)| tag == "before").map(|x| x.1.clone()) else {
+                    return (k, Some("no `fds before`".into()));
+                };
+                if !t.iter().any(|(tag, _)| tag == "after4") {
+                    return (k, Some(format!("the lines after the interrupted one did not run: {:?}", t.iter().map(|x| &x.0).collect::<Vec<_>>())));
+                }
+                for (tag, table) in &t {
+                    if *table != before {
+                        return (k, Some(format!("descriptor table of the parent at `{tag}` is {table}, before the children ran it was {before}")));
+                    }
+                }
+                (k, None)
+            })
+            .collect();
+        for (k, bad) in results {
+            runs += 1;
+            if let Some(what) = bad {
+                ctx.violation(
+                    "c08:interrupted-child-leaks-into-parent",
+                    &format!("SIGINT to process {child} at its system call {k}: {what}"),
+                    json!({"part": "interactive", "script": text, "child_pid": child, "inject_at_syscall": k}),
+                );
+            }
+        }
+    }
+    runs
+}
+
 pub fn run(tier: Tier) -> i32 {
     let ctx = Ctx::new("C08", "model_checking", tier);
+    let interactive_runs = interrupted_children(&ctx);
     let thorough = tier == Tier::Thorough;
     let mut cases = vec![];
     for prelude in 0..PRELUDES.len() {
@@ -356,12 +423,13 @@ pub fn run(tier: Tier) -> i32 {
         "traces_validated_against_impl": execs.load(Relaxed),
         "samples": samples.take(),
         "programs": cases.len(),
+        "interactive_executions_with_a_child_killed_by_sigint": interactive_runs,
         "programs_where_the_mutation_changed_the_child_state": nontriv.load(Relaxed),
         "executions": execs.load(Relaxed),
         "decision_points": points.load(Relaxed),
         "programs_capped": capped.load(Relaxed),
         "mutators": MUTATORS.len(),
-        "explanation": "each program = prelude; snap before; SUBSHELL{snap entry; mutators; snap mutated[; ender]}; snap after (ender: the subshell ends with a killed-by-signal status 399/508 or exit 3), run under every cooperative schedule of its processes (cap per program reported) and with syscall-tap preemption at deviation bound 1; snapshots serialise variables+attributes, positional parameters, functions, aliases, options, traps, dispositions, signal mask, umask, cwd and the descriptor table (by open-file-description identity) from inside the real shell",
+        "explanation": "each program = prelude; snap before; SUBSHELL{snap entry; mutators; snap mutated[; ender]}; snap after (ender: the subshell ends with a killed-by-signal status 399/508 or exit 3), run under every cooperative schedule of its processes (cap per program reported) and with syscall-tap preemption at deviation bound 1; plus an interactive shell whose children (substitutions, subshell, pipeline elements) are killed by SIGINT at every one of their system calls (the parent's descriptor table must stay the same and the following lines must run); snapshots serialise variables+attributes, positional parameters, functions, aliases, options, traps, dispositions, signal mask, umask, cwd and the descriptor table (by open-file-description identity) from inside the real shell",
     });
     ctx.finish(cov, &["snapshot probe built-in is trusted", "SIGCHLD's internal handler (installed at the first wait) is excluded from the parent before/after comparison"])
 }
